@@ -73,7 +73,8 @@ Step(e) ==
                      /\ Bad(e, "stale", "fresh", IF e.reused = 1 THEN "reused" ELSE "new")
                 ELSE Good(PP) /\ nreused' = nreused + e.reused /\ CountAlloc(e) /\ UNCHANGED ncyc
       [] e.op \in {"Use", "Check"} ->
-           IF e.g \notin DOMAIN P.held \/ e.id \notin P.held[e.g] THEN Bad(e, "args", "-", "-")
+           IF e.res # "ok" THEN Bad(e, "res", "ok", e.res)        \* none of the holder's operations may panic
+           ELSE IF e.g \notin DOMAIN P.held \/ e.id \notin P.held[e.g] THEN Bad(e, "args", "-", "-")
            ELSE LET P1 == IF e.op = "Check" THEN P ELSE UseF(P, e.id, e.kind, e.a)
                     \* a grown buffer has the capacity the runtime chose (logged); the spare cells are zero
                     PP == IF e.op = "Use" /\ e.kind = "AppendGrow" /\ e.cap >= Len(P1.bufs[e.id].cells)
